@@ -21,6 +21,7 @@
 -/
 import SH.Lemmas.Engine
 import SH.Lemmas.EngineChain
+import SH.Lemmas.EngineWaitQ
 
 namespace SH.Engine
 
@@ -70,7 +71,7 @@ theorem view_never_ahead_of_binlog (w r : Bool) (l : List (Bool × Nat × Nat)) 
 /-! ### failed writes -/
 
 def failing (s : St) : Op → Bool
-  | .doOp _ _ _ .cbfail | .doOp _ _ _ .cbfail0 | .doOp _ _ _ .sqlfail | .doOp _ _ _ .appfail => true
+  | .doOp _ _ _ .cbfail | .doOp _ _ _ .cbfail0 | .doOp _ _ _ .sqlfail | .doOp _ _ _ .appfail | .doOp _ _ _ .ctxfail => true
   | .doOp _ _ _ .ok => !canWrite s      -- write refused: replica, or the binlog rejects the offset
   | _ => false
 
@@ -629,6 +630,74 @@ theorem readers_observe_announced_prefix (w r : Bool) (l : List (Bool × Nat × 
     · left; have := h.1.i7a; omega
     · right; exact ⟨s.dur, hd, h.1.i7a⟩
   · rw [run_append, run_append]; rfl
+
+/-! ### the wait queue: who is released by a binlog commit -/
+
+theorem fresh_wq (w r : Bool) (l : List (Bool × Nat × Nat)) : WQ (fresh w r l) := wq_init _ _ _ _
+
+/-- **released_only_when_covered** — after every history, whatever offset `k` (≥ the committed one) the binlog announces
+    next: every call `binlogNotifyWaited(k)` releases is covered by `k` — a write's own end offset is ≤ k, and a READ
+    (a Do that returned no event, parked behind the writes it found) has read the write transaction only up to an offset
+    row ≤ k, so it returns no effect of an event that is not yet in the durable binlog. The calls that stay parked stay
+    covered by the bookkeeping (`covered`). -/
+theorem released_only_when_covered (w r : Bool) (l : List (Bool × Nat × Nat)) (hl : ∀ x ∈ l, 0 < x.2.2) (ops : List Op) (k : Nat) :
+    let s := run (fresh w r l) ops
+    s.ci ≤ k → (∀ wt ∈ released k s.waitQ, wt.off ≤ k) ∧ covered k (remaining k s.waitQ) := by
+  intro s hk
+  have hq : WQ s := run_wq ops _ (fresh_inv w r l hl) (fresh_wq w r l)
+  obtain ⟨h1, h2, _⟩ := released_covered s.waitQ s.ci k hk hq.w1
+  exact ⟨h1, h2⟩
+
+/-- a read that finds parked calls is parked with the offset row it has read from -/
+theorem read_parks_with_seen_offset (s : St) (id : Nat) (hb : busy s = false) (hw : s.wait = true) (hq : s.waitQ ≠ []) :
+    (step s (.doOp id 0 0 .read)).1.waitQ = s.waitQ ++ [⟨id, s.tx.off, true⟩] := by
+  have : s.waitQ.isEmpty = false := by cases h : s.waitQ with | nil => exact absurd h hq | cons _ _ => rfl
+  simp [step, doOp, hb, doRead, hw, this, park]
+
+/-- calls are parked only in WaitCommit mode, only on a master that has finished re-reading, and the newest offset row
+    is covered by the parked writes -/
+theorem parked_calls_context (w r : Bool) (l : List (Bool × Nat × Nat)) (hl : ∀ x ∈ l, 0 < x.2.2) (ops : List Op) :
+    let s := run (fresh w r l) ops
+    s.waitQ ≠ [] → s.wait = true ∧ s.repl = false ∧ s.q = false ∧ s.rest = [] ∧ s.tx.off ≤ bound s.ci s.waitQ := by
+  intro s hne
+  have hq : WQ s := run_wq ops _ (fresh_inv w r l hl) (fresh_wq w r l)
+  obtain ⟨a, b, c, d⟩ := hq.w2 hne
+  refine ⟨?_, c, a, b, d⟩
+  cases hw : s.wait with
+  | true => rfl
+  | false => exact absurd (hq.w3 hw) hne
+
+/-- **seeded change C17-r5-1 (release by compaction) breaks it** — WaitCommit master, writes 1 (ends at 36) and 2 (ends at 52)
+    and then a read are parked; the read has seen the transaction up to 52. The binlog announces 36: the code releases
+    write 1 only; the compacting variant also releases the read, which returns data of event 2 although the durable binlog
+    ends at 36. -/
+theorem release_by_compaction_uncovers_a_read :
+    let s := run (fresh true false [(false, 0, 24)])
+      [.dSkip 24, .commit 24, .ready, .doOp 1 12 0 .ok, .doOp 2 13 0 .ok, .doOp 3 0 0 .read]
+    s.waitQ = [⟨1, 36, false⟩, ⟨2, 52, false⟩, ⟨3, 52, true⟩] ∧
+    released 36 s.waitQ = [⟨1, 36, false⟩] ∧
+    releasedCompacting 36 s.waitQ = [⟨1, 36, false⟩, ⟨3, 52, true⟩] ∧
+    ¬ (∀ wt ∈ releasedCompacting 36 s.waitQ, wt.off ≤ 36) := by decide
+
+/-! ### order of effects inside a write -/
+
+/-- **the offset row is written strictly before the binlog append** — if the caller's context dies after the callback's
+    own statements (so that the engine's `UPDATE __binlog_offset` fails), the write fails BEFORE anything reached the
+    binlog: state unchanged, in particular the binlog (`allRecs`, `len`) and the in-memory offset. After the append
+    nothing runs on the caller's context any more. (General form: `failed_do_leaves_nothing` with `failing … .ctxfail`.) -/
+theorem offset_update_precedes_append (s : St) (id ln extra : Nat) :
+    (step s (.doOp id ln extra .ctxfail)).1 = s ∧ failing s (.doOp id ln extra .ctxfail) = true :=
+  ⟨failed_do_state s _ rfl, rfl⟩
+
+/-- **seeded change C17-r5-2 (append first, offset row afterwards) breaks it** — the failed write's record stays in the
+    binlog: the binlog is longer than the engine's offset, so every later write is refused ("append get wrong offset"),
+    and a restart replays the event of the write that had reported an error. -/
+theorem append_before_offset_update_leaves_record :
+    let s := run (fresh true false [(false, 0, 24)]) [.dSkip 24, .commit 24, .ready, .doOp 1 12 0 .ok, .commit 36, .tx]
+    let t := doWriteAppendFirstCtxFail s 2 12 0          -- Do(2) returned an error
+    t.tx = s.tx ∧ t.dbo = s.dbo ∧ evIds (allRecs t) = [1, 2] ∧ evIds (allRecs s) = [1] ∧
+    canWrite s = true ∧ canWrite t = false ∧ (step t (.doOp 3 12 0 .ok)).2 = "err dbo=36 asap=1" ∧
+    (run t (Op.crash 48 false :: (replayOps (keptRest t 48) ++ [Op.commit 48, Op.ready]))).tx = ⟨[1, 2], 48⟩ := by decide
 
 /-! ### the commit timer and the durability modes -/
 
